@@ -1,5 +1,6 @@
 import LeaspyVerif.Proto
 import LeaspyVerif.Model.Personalize
+import LeaspyVerif.Model.Scalings
 open LeaspyVerif LeaspyVerif.Proto LeaspyVerif.IndParams LeaspyVerif.Personalize
 
 /-
@@ -15,6 +16,15 @@ One request line = one complete recorded chain (or one alignment).
                                                  single (double) precision additions and comparisons as torch
   align ids=<hex>,… t=<name>~<q>:<q>;<q>:<q>&…  ids = utf-8 hex, name = x<hex>, per variable the (n, dim) estimates (rows `;`, cells `:`)
         → ids=…;shapes=…;params=…  | err:input   the container `from_pytorch(dataset.indices, estimates)` builds
+  scal  via=direct|latent s=<name>~<tns>~<tns>&…  [x=<name>~<q>:<q>&…]  [v=<q>,<q>,…]
+                                                 the prior-standardized coordinates of scipy_minimize (`Model/Scalings.lean`), on exact
+                                                 rationals.  s = per variable (in dict order) loc and scale, tns = s<q> (0-d) |
+                                                 v<q>:<q>… (1-d, `v` alone = empty) | h<d>:<d>… (shape of a tensor of higher dimension);
+                                                 via=latent applies `from_latent_variable` (0-d reshaped to (1,)), via=direct hands the
+                                                 tensors to `_AffineScalings1D` as they are.  x = a mapping (values `e` = empty, `_` = empty
+                                                 mapping), v = a concatenated vector (`_` = empty).
+        → len=<n> slices=<name>:<a>:<b>,… stack=<r> scaling=<r> unstack=<r> unscaling=<r>  | err:assert (constructor refused)
+                                                 <r> = a vector `q,q` / a mapping `name~q:q&…` / err:key / err:runtime / `-` (not requested)
 -/
 
 def hexVal (c : Char) : Option Nat :=
@@ -69,6 +79,80 @@ def fmtIdx (l : List (Option Nat)) : String :=
   | none => "none"
   | some is => fmtList toString is
 
+/-! ### scalings -/
+
+def parseStrName (s : String) : Option String :=
+  if s.startsWith "x" then unhex (dropFirst s) else none
+
+def fmtStrName (n : String) : String := "x" ++ hex n
+
+def parseTns (s : String) : Option (Scalings.Tns Rat) :=
+  match s.toList with
+  | 's' :: r => Scalings.Tns.scalar <$> parseRat (String.ofList r)
+  | 'v' :: r => if r.isEmpty then some (.vec []) else Scalings.Tns.vec <$> ((String.ofList r).splitOn ":").mapM parseRat
+  | 'h' :: r => Scalings.Tns.higher <$> ((String.ofList r).splitOn ":").mapM parseNat
+  | _ => none
+
+def parseVals (s : String) : Option (List Rat) :=
+  if s == "e" then some [] else (s.splitOn ":").mapM parseRat
+
+def parsePoint (s : String) : Option (Scalings.Point Rat) :=
+  (splitNE s "&").mapM (fun (t : String) =>
+    match t.splitOn "~" with
+    | [k, vals] => do
+      let n ← parseStrName k
+      let v ← parseVals vals
+      pure (n, v)
+    | _ => none)
+
+def fmtErr : Scalings.Err → String
+  | .key => "err:key"
+  | .runtime => "err:runtime"
+  | .assert => "err:assert"
+
+def fmtVec (r : Except Scalings.Err (List Rat)) : String :=
+  match r with
+  | .ok v => fmtList fmtRat v
+  | .error e => fmtErr e
+
+def fmtPointOk (x : Scalings.Point Rat) : String :=
+  fmtList (fun (kv : String × List Rat) => fmtStrName kv.1 ++ "~" ++ (if kv.2.isEmpty then "e" else ":".intercalate (kv.2.map fmtRat))) x "&"
+
+def fmtPoint (r : Except Scalings.Err (Scalings.Point Rat)) : String :=
+  match r with
+  | .ok x => fmtPointOk x
+  | .error e => fmtErr e
+
+def handleScal (args : List String) : Option String := do
+  let via ← kv args "via"
+  let raw ← (kv args "s") >>= fun s => (splitNE s "&").mapM (fun (t : String) =>
+    match t.splitOn "~" with
+    | [k, l, sc] => do
+      let n ← parseStrName k
+      let lt ← parseTns l
+      let st ← parseTns sc
+      pure (n, lt, st)
+    | _ => none)
+  let built ← if via == "latent" then some (Scalings.fromLatent raw)
+    else if via == "direct" then some (Scalings.mk? raw) else none
+  let x ← match kv args "x" with
+    | none => some none
+    | some xs => some <$> parsePoint xs
+  let v ← match kv args "v" with
+    | none => some none
+    | some vs => some <$> parseList parseRat vs
+  match built with
+  | .error e => some (fmtErr e)
+  | .ok s =>
+    let sl := fmtList (fun (t : String × Nat × Nat) => s!"{fmtStrName t.1}:{t.2.1}:{t.2.2}") (Scalings.slices s)
+    let (st, sc) := match x with
+      | none => ("-", "-")
+      | some x => (fmtVec (Scalings.stack s x), fmtVec (Scalings.scaling s x))
+    let (us, un) := match v with
+      | none => ("-", "-")
+      | some v => (fmtPointOk (Scalings.unstack s v), fmtPoint (Scalings.unscaling s v))
+    some s!"len={Scalings.length s} slices={sl} stack={st} scaling={sc} unstack={us} unscaling={un}"
+
 def handle (line : String) : String :=
   match line.splitOn " " with
   | "mean" :: args =>
@@ -117,6 +201,7 @@ def handle (line : String) : String :=
       | .error .input => some "err:input"
       | .error .attr => some "err:attr"
       | .error .invariant => some "err:invariant").getD "bad-request"
+  | "scal" :: args => (handleScal args).getD "bad-request"
   | _ => "bad-request"
 
 def main : IO Unit := loop handle
